@@ -298,6 +298,57 @@ def _block(name, stmts, ff=False):
     return "".join(out)
 
 
+STMT_PLACES = ["else", "if", "elif", "for", "for-in-else", "if-in-for", "else-of-nested"]
+STMT_TARGETS = ["tmp2-add", "tmp2-sub", "tmp3-and", "tmp3-sub"]
+
+
+def fam_stmt(R, idx):
+    """Statement shapes: ONE Python statement that the back ends expand to SEVERAL lines (an assignment with several
+    targets) as the only statement of an if-body / elif-body / else-body / for-body, at every place x kind of target.
+    A body emitted without begin ... end then keeps only its first line inside the branch / loop.
+    (Added after an independent observation on the unchanged tree: `else: x = y = s.in_`.)"""
+    ctx = Ctx(R)
+    place = STMT_PLACES[idx % len(STMT_PLACES)]
+    targ = STMT_TARGETS[(idx // len(STMT_PLACES)) % len(STMT_TARGETS)]
+    w = R.choice([8, 5, 32])
+    n = 3
+    decl = ["s.a = InPort( Bits%d )" % w, "s.b = InPort( Bits%d )" % w, "s.c = InPort( Bits1 )", "s.d = InPort( Bits1 )",
+            "s.o1 = OutPort( Bits%d )" % w, "s.o2 = OutPort( Bits%d )" % w, "s.o3 = OutPort( Bits%d )" % w,
+            "s.v = [ OutPort( Bits%d ) for _ in range(%d) ]" % (w, n), "s.u = [ OutPort( Bits%d ) for _ in range(%d) ]" % (w, n)]
+    k0, k1 = lit(R, w), lit(R, w)
+    # the multi-target statement, the defaults before it and the uses after it
+    B = lambda k: "Bits%d( %d )" % (w, k)  # noqa: E731
+    if targ == "tmp2-add":
+        pre, multi, post = ["x = y = " + B(k0)], "x = y = s.a + s.b", ["s.o1 @= x", "s.o2 @= y"]
+    elif targ == "tmp2-sub":
+        pre, multi, post = ["p = q = " + B(k1)], "p = q = s.a - s.b", ["s.o1 @= p", "s.o2 @= q + 1"]
+    elif targ == "tmp3-and":
+        pre, multi, post = ["x = " + B(k0), "y = " + B(k1), "z = " + B(k0 ^ k1)], "x = y = z = s.a & s.b", \
+            ["s.o1 @= x ^ z", "s.o2 @= y + 1"]
+    else:
+        pre, multi, post = ["x = y = z = " + B(k1)], "x = y = z = s.b - s.a", ["s.o1 @= z", "s.o2 @= x + y"]
+    other = "s.o3 @= s.b"         # a one-line statement for the other branch
+    loopdef = ["for j in range(%d):\n  s.v[j] @= %d\n  s.u[j] @= %d" % (n, k0, k1)]
+    if place == "else":
+        body = "if s.c:\n  %s\nelse:\n  %s" % (other, multi)
+    elif place == "if":
+        body = "if s.c:\n  %s\nelse:\n  %s" % (multi, other)
+    elif place == "elif":
+        body = "if s.c:\n  %s\nelif s.d:\n  %s\nelse:\n  s.o3 @= s.a" % (other, multi)
+    elif place == "for":
+        body = "for i in range(%d):\n  %s" % (n, multi.replace("s.a", "( s.a + i )"))
+    elif place == "for-in-else":
+        body = "if s.c:\n  %s\nelse:\n  for i in range(%d):\n    %s" % (other, n, multi.replace("s.b", "( s.b ^ i )"))
+    elif place == "if-in-for":
+        body = "for i in range(%d):\n  if s.a[i]:\n    %s" % (n, multi.replace("s.b", "( s.b + i )"))
+    else:
+        body = "if s.c:\n  if s.d:\n    %s\n  else:\n    %s\nelse:\n  %s" % (other, multi, other)
+    # `other` writes o3 before the uses do: keep the uses after the control statement
+    stmts = loopdef + pre + ["s.o3 @= 0"] + [body] + post[:2]
+    sigs = {"o1": "stmt(%s,%s)" % (place, targ), "o2": "stmt(%s,%s)" % (place, targ), "o3": "stmt-other"}
+    return "stmt_%s_%s_w%d" % (place, targ, w), _emit(ctx, [_block("up", stmts)], decl), sigs
+
+
 # --------------------------------------------------------------------------------------
 # families
 # --------------------------------------------------------------------------------------
@@ -1317,7 +1368,7 @@ def fam_lv(R, idx):
 
 
 FAMILIES = {"unit": fam_unit, "ops": fam_ops, "expr": fam_expr, "ctrl": fam_ctrl, "loopidx": fam_loopidx, "struct": fam_struct,
-            "hier": fam_hier, "seq": fam_seq, "misc": fam_misc, "nd": fam_nd, "lv": fam_lv}
+            "hier": fam_hier, "seq": fam_seq, "misc": fam_misc, "nd": fam_nd, "lv": fam_lv, "stmt": fam_stmt}
 
 
 def design(family, index, seed_tag=""):
